@@ -1392,6 +1392,8 @@ class Engine:
                     arr = v.cell.get(self)
                     if isinstance(arr, ConcSeq):
                         return SliceRef(arr, bv(0, 64), bv(len(arr.cells), 64))
+                    if isinstance(arr, SymSeq):
+                        return SliceRef(arr, bv(0, 64), arr.len)
                     raise Unsupported('unsize of ' + type(arr).__name__)
                 return v
             return v
